@@ -1,0 +1,13 @@
+//go:build verif
+// +build verif
+
+package ShouXingUtil
+
+// Verification hooks (build tag "verif"): read-only exports of the library's own
+// ephemeris so reported instants can be checked as roots of it. No existing line is edited.
+
+// VerifSaLon returns the library's apparent solar ecliptic longitude (radians) at t (Julian centuries from J2000, TD).
+func VerifSaLon(t float64, n int) float64 { return saLon(t, n) }
+
+// VerifMsaLon returns the library's moon-minus-sun apparent longitude difference (radians).
+func VerifMsaLon(t float64, mn int, sn int) float64 { return msaLon(t, mn, sn) }
